@@ -65,20 +65,33 @@ FlowsNext(Bs, cond, out, bud) ==
     ELSE IF out = "failed" THEN (IF 0 \in Bs THEN {bud} ELSE {})
     ELSE {}
 
-StepB(Bs, cond, new, out, bud) ==
-    IF mode = "policy" THEN PolicyNext(Bs, cond, new, out, bud) ELSE FlowsNext(Bs, cond, out, bud)
+\* ---- several retry remedies apply to the call (policy mode seen at the gateway's reply, e.g. an endpoint and a global
+\* remedy): the statement bounds what the gateway asks for by the configured numbers - here by their sum, the most any
+\* reading allows - and says nothing about how the remedies share their bookkeeping: a retry may use up any part of
+\* what is left, and the gateway may give up on a continued call at any point.  Unbounded is never allowed.
+MultiNext(Bs, cond, new, out, bud) ==
+    IF ~cond THEN (IF out = "noop" THEN {0} ELSE {})
+    ELSE LET E == UNION {Eff(b, new, bud) : b \in Bs} IN
+         IF out = "retry" THEN {x \in 0..bud : \E e \in E : e >= 1 /\ x <= e - 1}
+         ELSE IF out = "noop" THEN (IF new /\ 0 \notin E THEN {} ELSE {0})
+         ELSE {}
 
-Outs == IF mode = "policy" THEN {"retry", "noop"} ELSE {"retry", "failed", "none"}
+StepB(Bs, cond, new, out, bud) ==
+    IF mode = "policy" THEN PolicyNext(Bs, cond, new, out, bud)
+    ELSE IF mode = "multi" THEN MultiNext(Bs, cond, new, out, bud)
+    ELSE FlowsNext(Bs, cond, out, bud)
+
+Outs == IF mode # "flows" THEN {"retry", "noop"} ELSE {"retry", "failed", "none"}
 
 \* never seen: policy mode answers a non-new response of an unknown sequence with "noop"; an
 \* implementation that treats it as the start of a call is equally within the statement
-InitB(s) == IF mode = "policy" THEN {0, BudOf(s)} ELSE {BudOf(s)}
+InitB(s) == IF mode # "flows" THEN {0, BudOf(s)} ELSE {BudOf(s)}
 
 \* observation of one response (no acceptance test: used by the monitor composed with the I spec)
 ObserveResp(s, st, new, out) ==
     /\ B' = [B EXCEPT ![s] = StepB(B[s], InCond(st), new, out, BudOf(s))]
     /\ cnt' = [cnt EXCEPT ![s] = IF out = "retry"
-                                 THEN (IF mode = "policy" /\ new THEN 0 ELSE cnt[s]) + 1
+                                 THEN (IF mode # "flows" /\ new THEN 0 ELSE cnt[s]) + 1
                                  ELSE 0]
     /\ last' = [ev |-> "resp", s |-> s, st |-> st, new |-> new, out |-> out]
     /\ UNCHANGED <<mode, A, AF, ranges>>
@@ -88,7 +101,7 @@ Resp(s, st, new, out) ==
     /\ ObserveResp(s, st, new, out)
 
 Adv(d) ==
-    /\ B' = [s \in DOMAIN B |-> B[s] \cup {IF mode = "policy" THEN 0 ELSE BudOf(s)}]
+    /\ B' = [s \in DOMAIN B |-> B[s] \cup {IF mode # "flows" THEN 0 ELSE BudOf(s)}]
     /\ cnt' = [s \in DOMAIN B |-> 0]
     /\ last' = [ev |-> "adv", d |-> d]
     /\ UNCHANGED <<mode, A, AF, ranges>>
@@ -124,7 +137,7 @@ Isolation == [][\A t \in DOMAIN B : (last'.ev = "resp" /\ last'.s # t) => (B'[t]
 
 \* after a reported failure the next response inside the conditions (of a new call) is retried
 Forget == [][\A s \in DOMAIN B :
-               (last'.ev = "resp" /\ last'.s = s /\ InCond(last'.st) /\ BudOf(s) >= 1 /\ B[s] = {IF mode = "policy" THEN 0 ELSE BudOf(s)}
-                /\ (mode = "policy" => last'.new))
+               (last'.ev = "resp" /\ last'.s = s /\ InCond(last'.st) /\ BudOf(s) >= 1 /\ B[s] = {IF mode # "flows" THEN 0 ELSE BudOf(s)}
+                /\ (mode # "flows" => last'.new))
                => last'.out = "retry"]_pvars
 ================================================================================
